@@ -202,3 +202,28 @@ PROPS["C04"] = Prop(
                 "buffer length, and every generated or mutated input string is parsed from an exact-size heap block so that a one-byte "
                 "over-read is an ASan report; MSan catches results that depend on uninitialised words"),
 )
+
+
+def xml_backend_env(k):
+    # the XML back-end choice is cached in process-wide statics: fix it per worker process
+    return {"HWLOC_LIBXML_IMPORT": str(k % 2), "HWLOC_LIBXML_EXPORT": str((k // 2) % 2)}
+
+
+PROPS["C01"] = Prop(
+    "C01",
+    [Stage("asan", "c01_load", "asan", quick=4000, thorough=80000, need_snapshots=True, per_worker_env=xml_backend_env)],
+    rule=("one load per case: generated synthetic descriptions (5/8), corpus XML by file or buffer (1/8), the bundled Linux/x86/x86+linux "
+          "snapshots with every applicable component selection (2/8), the live machine (1/24), each with a default or random "
+          "configuration (17 type filters incl. corner vectors, 10 topology flags); oracle = independent WF + built-in checker. "
+          "distinct+non-trivial = class 1: distinct (source hash, loaded shape, filter vector, flag word) of successful loads with >= 3 "
+          "levels or a special object"),
+    nontrivial_classes=[1], floor=300,
+    assumptions=COMMON_ASSUME + [
+        "sibling order, memory-children order and symmetric_subtree are not in the statement: only checked through the built-in checker",
+        "os_index values stay below the 2048-bit model window (counter wf.os_index_beyond_window otherwise)",
+        "snapshot loads use the component selections of the repository's test drivers (linux,stop / x86,stop / x86,linux,stop ...)",
+        "even workers import XML with libxml2, odd workers with the built-in parser"],
+    technique="runtime monitor: independent well-formedness oracle (public accessors + SET model) and hwloc_topology_check() on every successful load, under gcc ASan+UBSan+LSan",
+    level_text=("exploration: sources x configurations are sampled; every successful load is checked by an oracle that shares no code with the "
+                "library's checker, and by the built-in checker (abort = violation)"),
+)
